@@ -169,6 +169,10 @@ func c02Worker(_ []string) int {
 		// referenced templates with a structural mistake, one of them a level further down
 		l.Set("/lb.jet", c.LD+` extends "lb2" `+c.RD+"x")
 		l.Set("/lb2.jet", "a\n"+c.LD+" if x "+c.RD+"never closed")
+		// well-formed neighbours under later extensions: a broken template is an error, not a reason to look further
+		l.Set("/t.jet.jet", "sibling")
+		l.Set("/lb.html.jet", "sibling layout")
+		l.Set("/xb.jet.html", c.LD+" block xb() "+c.RD+"x"+c.LD+" end "+c.RD)
 		l.Set("/xb.jet", c.LD+" block xb() "+c.RD+"x"+c.LD+" end "+c.RD+c.LD+" end "+c.RD)
 		opts := []jet.Option{}
 		if name != "A" {
